@@ -252,9 +252,19 @@ def _int_table_lookup(d, i):
     from .strings import _ranges_term
     if not keys:
         raise KeyError(i)
-    inside = mkbool(z3.simplify(_ranges_term(i.term, keys))) if not i.bv else None
     if i.bv:
-        raise E.Unsupported('table lookup with bit-vector index')
+        # bit-vector index (IEEE harnesses): signed comparisons against 64-bit constants
+        parts = []
+        a = 0
+        while a < len(keys):
+            b = a
+            while b + 1 < len(keys) and keys[b + 1] == keys[b] + 1:
+                b += 1
+            parts.append(z3.And(i.term >= z3.BitVecVal(keys[a], 64), i.term <= z3.BitVecVal(keys[b], 64)))
+            a = b + 1
+        inside = mkbool(z3.simplify(z3.Or(parts) if len(parts) > 1 else parts[0]))
+    else:
+        inside = mkbool(z3.simplify(_ranges_term(i.term, keys)))
     if not bool(inside):
         raise KeyError('symbolic key outside table')
     vals = [d[k] for k in keys]
@@ -275,11 +285,13 @@ def _int_table_lookup(d, i):
             runs = cache[id(d)] = (rl, d)
         rl = runs[0]
 
+        mk = (lambda n: z3.BitVecVal(n, 64)) if i.bv else z3.IntVal
+
         def tree(lo, hi):
             if lo == hi:
-                return z3.IntVal(rl[lo][2])
+                return mk(rl[lo][2])
             mid = (lo + hi) // 2
-            return z3.If(i.term <= rl[mid][1], tree(lo, mid), tree(mid + 1, hi))
+            return z3.If(i.term <= mk(rl[mid][1]), tree(lo, mid), tree(mid + 1, hi))
         return SymInt(tree(0, len(rl) - 1))
     return d[i.__index__()]
 
